@@ -29,7 +29,13 @@ C3RaiseQ == {"HTTPError", "AppA", "AppB", "AppC"}
 C3Render == {"AppA", "HTTPError"}
 NoRegs == {<<>>}
 (* C04 instances: registration histories over a class universe with a diamond and a mixed class *)
+Both == BOOLEAN
+OnlyIndep == {TRUE}
+C4Targets == {"routed", "unrouted"}
 C4RegClasses == {"Exception", "HTTPError", "HTTPNotFound", "AppA", "AppB", "AppC"}
+C4RegClassesQ == {"Exception", "HTTPNotFound", "AppA", "AppB"}
+C4RaiseQ == {"HTTPNotFound", "StSub", "AppA", "AppB", "AppD", "AppX", "Exception"}
+C4RenderQ == {"AppD", "HTTPNotFound"}
 C4RegBehs    == {"set", "http", "other"}
 C4RegBehsAll == {"set", "noop", "http", "status", "other"}
 C4Raise  == {"HTTPError", "HTTPNotFound", "HTTPStatus", "StSub", "AppA", "AppB", "AppC", "AppD", "AppX", "Exception"}
